@@ -123,7 +123,7 @@ theorem C17_deque_pop_false_only_if_empty_partial (n : Nat) (log : List Ev) (s s
     (hpc : s.pc t = .popLd d) (hstep : step s (.ld t a) = some s')
     (hret : s'.pc t = .retn false 0) : contents s = [] := by
   have hi := inv_of_accepted h hs
-  simp only [step] at hstep
+  simp only [step, stepG] at hstep
   split at hstep
   case isFalse => simp at hstep
   rename_i hg
